@@ -410,6 +410,28 @@ func ruleOptZero(rule string) RuleFn {
 			lenZero = an.EdgesWhere(fn, an.FactIs("(len("+an.Norm(provBase)+") == 0)"))
 		}
 		var asEdges []an.Edge
+		// (f) the verdict "its own dependencies are unavailable" is read off links that dig created only: a helper that
+		// walks the chain by Unwrap and stops at errConstructorFailed / the first foreign link - never errors.As over the
+		// whole chain, which also finds a missing-dependencies error INSIDE the error a constructor returned
+		for _, k := range methodCalls(fn, "errors.As") {
+			a := k.Common().Args
+			if mi, ok := a[1].(*ssa.MakeInterface); ok && an.IsDigNamed(mi.X.Type(), "errMissingDependencies") {
+				c.Bad(rule, "paramSingle.Build: 'missing dependencies' is recognised on dig's own links only", "errors.As(err, *errMissingDependencies) searches the whole chain, including the error a constructor returned (errConstructorFailed.Reason): a constructor that fails with an error wrapping such a dig error - e.g. the failure of a nested Invoke - is treated as 'dependencies unavailable' and an optional consumer silently gets the zero value", k, nil)
+			}
+		}
+		if h := c.P.Func("dig.missingDependencies"); h != nil {
+			c.See(h)
+			if boundedMissingDeps(h) {
+				for _, k := range methodCalls(fn, "dig.missingDependencies") {
+					if len(pcalls) == 1 && an.Resolve(k.Common().Args[0]) == ssa.Value(pcalls[0].(*ssa.Call)) {
+						kk := k
+						asEdges = append(asEdges, an.BoolEdges(fn, func(v ssa.Value) bool { return v == ssa.Value(kk) }, true)...)
+					}
+				}
+			} else {
+				c.BadAt(rule, "missingDependencies follows dig's own links only", "the helper does not stop at errConstructorFailed and at foreign errors, or reports true without having found an errMissingDependencies link", c.P.Pos(h.Pos()), nil)
+			}
+		}
 		for _, k := range methodCalls(fn, "errors.As") {
 			a := k.Common().Args
 			if len(pcalls) == 1 && an.Resolve(a[0]) == ssa.Value(pcalls[0].(*ssa.Call)) {
@@ -586,6 +608,14 @@ func ruleSameInstance(rule string) RuleFn {
 			}
 			if k, ok := v.(*ssa.Call); ok && an.CalleeName(k) == "reflect.Zero" {
 				return true, "reflect.Zero"
+			}
+			// a stored slice converted to the consumer's slice type: same elements, same backing array
+			if k, ok := v.(*ssa.Call); ok && an.CalleeName(k) == "(reflect.Value).Convert" {
+				if ex, ok := an.Resolve(k.Common().Args[0]).(*ssa.Extract); ok && ex.Index == 0 {
+					if lk, ok := ex.Tuple.(*ssa.Call); ok && lk.Common().IsInvoke() && lk.Common().Method.Name() == "getDecoratedValueGroup" {
+						return true, "getDecoratedValueGroup (converted)"
+					}
+				}
 			}
 			return false, an.Norm(v)
 		}
@@ -839,7 +869,7 @@ func reachesNormalContinuation(tgt *ssa.BasicBlock, l *rangeLoop) bool {
 // ruleMissingPredicate (C04).
 func ruleMissingPredicate(rule string) RuleFn {
 	return func(c *an.Ctx) {
-		c.Rule(rule, "missing-predicate: in findMissingDependencies a paramSingle is reported missing on exactly the path that crosses len(getAllValueProviders(p.Name,p.Type))==0, !hasDecoratedValue(p.Name,p.Type) and !p.Optional; it recurses into the fields of a paramObject; shallowCheckDependencies returns a non-nil error iff that list is non-empty")
+		c.Rule(rule, "missing-predicate: in findMissingDependencies a paramSingle is reported missing on exactly the path that crosses len(getAllValueProviders(p.Name,p.Type))==0, no decorated value in any enclosing scope (the walk paramSingle.Build itself uses) and !p.Optional; it recurses into the fields of a paramObject; shallowCheckDependencies returns a non-nil error iff that list is non-empty")
 		fn := c.Fn(rule, "dig.findMissingDependencies")
 		if fn == nil {
 			return
@@ -863,8 +893,9 @@ func ruleMissingPredicate(rule string) RuleFn {
 			{"no provider in any enclosing scope", func(f an.Fact) bool {
 				return regexp.MustCompile(`^\(len\(p:c\.getAllValueProviders\((.*)\.Name, (.*)\.Type\)\) == 0\)$`).MatchString(f.S)
 			}},
-			{"no decorated value", func(f an.Fact) bool {
-				return regexp.MustCompile(`^!p:c\.getDecoratedValue\((.*)\.Name, (.*)\.Type\)#1$`).MatchString(f.S)
+			{"no decorated value in any enclosing scope", func(f an.Fact) bool {
+				// the same walk as paramSingle.Build uses: (paramSingle).getDecoratedValue(c) looks through storesToRoot()
+				return regexp.MustCompile(`^!.*\.\(dig\.paramSingle\)#0\.getDecoratedValue\(p:c\)#1$`).MatchString(f.S)
 			}},
 			{"not optional", func(f an.Fact) bool { return regexp.MustCompile(`^!.*\.\(dig\.paramSingle\)#0\.Optional$`).MatchString(f.S) }},
 		}
@@ -873,7 +904,13 @@ func ruleMissingPredicate(rule string) RuleFn {
 			edges := an.EdgesWhere(fn, cd.pred)
 			cons := "findMissingDependencies: missing only if " + cd.name
 			if len(edges) == 0 {
-				c.Bad(rule, cons, "condition not tested", app, nil)
+				detail := "condition not tested"
+				if strings.Contains(cd.name, "decorated") && len(an.EdgesWhere(fn, func(f an.Fact) bool {
+					return regexp.MustCompile(`^!p:c\.getDecoratedValue\((.*)\.Name, (.*)\.Type\)#1$`).MatchString(f.S)
+				})) > 0 {
+					detail = "the pre-flight check looks for a decorated value in the requesting scope only (c.getDecoratedValue), while paramSingle.Build finds it in any enclosing scope: a value that a decorator of an ancestor scope has produced, for a type nobody provides, is handed out in that scope but reported as a missing type in its descendants"
+				}
+				c.Bad(rule, cons, detail, app, nil)
 				continue
 			}
 			all.AddEdges(edges...)
@@ -1020,4 +1057,56 @@ func zeroAfterExhaustedSearch(fn *ssa.Function, z ssa.Instruction, pcalls []ssa.
 		}
 	}
 	return true
+}
+
+// boundedMissingDeps: every `return true` of the helper is dominated by a
+// successful type test for errMissingDependencies; it contains a type test for
+// errConstructorFailed whose success leads to `return false` without another
+// Unwrap; it never calls errors.As/errors.Is.
+func boundedMissingDeps(h *ssa.Function) bool {
+	if len(an.CallsNamed(h, "errors.As")) > 0 || len(an.CallsNamed(h, "errors.Is")) > 0 {
+		return false
+	}
+	isTA := func(v ssa.Value, typ string) bool {
+		ex, ok := v.(*ssa.Extract)
+		if !ok || ex.Index != 1 {
+			return false
+		}
+		ta, ok := ex.Tuple.(*ssa.TypeAssert)
+		return ok && an.IsDigNamed(ta.AssertedType, typ)
+	}
+	hit := an.BoolEdges(h, func(v ssa.Value) bool { return isTA(v, "errMissingDependencies") }, true)
+	stop := an.BoolEdges(h, func(v ssa.Value) bool { return isTA(v, "errConstructorFailed") }, true)
+	if len(hit) == 0 || len(stop) == 0 {
+		return false
+	}
+	ok := true
+	an.Instrs(h, func(in ssa.Instruction) {
+		r, isR := in.(*ssa.Return)
+		if !isR || len(r.Results) != 1 {
+			return
+		}
+		if an.Norm(r.Results[0]) == "true" {
+			if p, _ := an.PathTo(h, nil, an.IsInstr(r), an.NewGates().AddEdges(hit...)); p != nil {
+				ok = false
+			}
+		}
+	})
+	uw := an.CallsNamed(h, "errors.Unwrap")
+	var uwi []ssa.Instruction
+	for _, u := range uw {
+		uwi = append(uwi, u)
+	}
+	for _, e := range stop {
+		first := e.From.Succs[e.Succ].Instrs[0]
+		for _, u := range uwi {
+			if first == u {
+				ok = false
+			}
+			if p, _ := an.PathTo(h, first, an.IsInstr(u), nil); p != nil {
+				ok = false
+			}
+		}
+	}
+	return ok && len(uw) > 0
 }
